@@ -365,6 +365,83 @@ PROC_SEGS = {"function", "subroutine", "mpimpl", "ifacebody", "absinterface", "m
 PAGE_KINDS = {"module", "submodule", "program", "blockdata", "type", "function", "subroutine", "mpimpl", "interface", "absinterface", "ifacebody", "namelist"}
 
 
+def observe_extra(item):
+    cap = observe.Captured()
+    project, cap = observe.parse_and_correlate([item["root"]], settings_kw={"extra_filetypes": {"c": fs_ExtraFileType("c", "//")}, **item["settings"]}, cap=cap)
+    return {f.name: list(f.doc_list) for f in project.extra_files}
+
+
+def fs_ExtraFileType(ext, com):
+    from ford.settings import ExtraFileType
+
+    return ExtraFileType(ext, com)
+
+
+def case_extra_filetype(seed):
+    """Documentation comments in a file of an extra file type (comment characters `//`): every documentation line - inline, on its own
+    (indented) line, block form with plain-comment continuation lines - belongs to the file's documentation, in order; ordinary comments
+    and text inside string literals do not."""
+    rng = random.Random(seed)
+    w = [0]
+
+    def words(n=None):
+        out = []
+        for _ in range(n or rng.randint(1, 3)):
+            w[0] += 1
+            out.append(f"zq7w{w[0]}")
+        return " ".join(out)
+
+    marks = rng.choice(MARKSETS)
+    dm, pm, am, pam = marks.get("docmark", "!"), marks.get("predocmark", ">"), marks.get("docmark_alt", "*"), marks.get("predocmark_alt", "|")
+    L, exp = [], []
+    ind = lambda: " " * rng.choice([0, 0, 2, 4, 8])  # noqa: E731
+    for _ in range(rng.randint(6, 16)):
+        r = rng.random()
+        if r < 0.2:
+            L.append(ind() + rng.choice(["int x = 1;", "x++;", "return x;", "}", "void f(void) {"]))
+        elif r < 0.35:
+            t = words()
+            L.append(ind() + rng.choice(["int y = 2;", "y--;", 'puts("a //' + dm + ' not doc");']) + " //" + rng.choice([dm, pm]) + " " + t)
+            exp += t.split()
+        elif r < 0.55:
+            t = words()
+            L.append(ind() + "//" + rng.choice([dm, pm]) + " " + t)
+            exp += t.split()
+        elif r < 0.8 and am and pam:
+            t = words()
+            i0 = ind()
+            L.append(i0 + "//" + rng.choice([am, pam]) + " " + t)
+            exp += t.split()
+            for _k in range(rng.randint(0, 3)):
+                t = words()
+                L.append(rng.choice([i0, ind()]) + "// " + t)
+                exp += t.split()
+            L.append(ind() + rng.choice(["", "int z;", "z = 3; // zn1 trailing ordinary comment"]))
+        else:
+            L.append(ind() + "// zn" + str(rng.randint(1, 9)) + " ordinary comment " + rng.choice(["", "'it''s", 'say "hi']))
+            L.append(ind() + "int after_ordinary;")
+    text = "\n".join(L) + "\n"
+    base = core.mktemp("vf_c03x_")
+    try:
+        open(os.path.join(base, "main.c"), "w").write(text)
+        open(os.path.join(base, "m.f90"), "w").write("module xm\nend module xm\n")
+        st, r = core.run_alone(observe_extra, {"root": base, "settings": {k: v for k, v in marks.items()}}, timeout=120)
+    finally:
+        shutil.rmtree(base, ignore_errors=True)
+    kfb = {"docstyle": "extra_filetype", "default_markers": marks == {}, "include_file": False}
+    if st != "ok":
+        return {"viol": [{"kf": {"kind": "ford_failed" if st == "raise" else "harness_" + st, "error": str(r)[:50], **kfb}, "w": {"detail": str(r)[-800:], "file": text, "seed": seed, "case": "extra"}}], "n": 0}
+    got = docgrammar.tracer_seq(r.get("main.c", []))
+    viol = []
+    if got != exp:
+        foreign = [x for x in got if x not in exp]
+        how = "foreign_words" if foreign else ("missing_words" if len(got) < len(exp) else "order_or_duplicates")
+        viol.append({"kf": {"kind": "doc_list_mismatch", "how": how, "entity": "extra_file", **kfb}, "w": {"expected": exp, "observed": got, "file": text, "markers": marks, "seed": seed, "case": "extra"}})
+    if any(re.search(r"\bzn\d", x) for x in r.get("main.c", [])):
+        viol.append({"kf": {"kind": "ordinary_comment_in_doc", "entity": "extra_file", **kfb}, "w": {"doc_list": r.get("main.c"), "file": text, "seed": seed, "case": "extra"}})
+    return {"viol": viol, "n": 1}
+
+
 def convert_bodies(chunk):
     """Bodies straight through the real MetaMarkdown.convert (one process, many bodies)."""
     install_contract()
@@ -404,6 +481,10 @@ def main():
     if rp:
         w = json.load(open(rp))["witness"]
         a = w.get("arg")
+        if w.get("case") == "extra":
+            r = case_extra_filetype(w["seed"])
+            print("replay:", "VIOLATION" if r["viol"] else "held")
+            sys.exit(1 if r["viol"] else 0)
         if w.get("case") == "site":
             r = case_site(w["seed"])
             bad = [v for v in r["viol"] if core.match_known(core.load_known(PID), v["kf"]) is None]
@@ -451,6 +532,15 @@ def main():
             run.seen("entity_kinds_looked_up_in_generated_pages", k)
         for v in r["viol"]:
             run.violation(v["kf"], v["w"])
+    # files of an extra file type
+    xseeds = [run.seed * 100003 + 900000 + i for i in range(2000 if thorough else 300)]
+    for sd, (st, r) in zip(xseeds, core.fork_map(case_extra_filetype, xseeds, per_case_fork=False, case_timeout=200)):
+        if st != "ok":
+            run.inconc(f"extra file {st}: {str(r)[-300:]}")
+            continue
+        run.count("extra_file_type_docs_compared", r["n"])
+        for v in r["viol"]:
+            run.violation(v["kf"], v["w"])
     # body-level
     nbody = 12000 if thorough else 2500
     bodies = []
@@ -491,7 +581,7 @@ def main():
 
         repo_tests.attach(run, PID)
     run.finish(floors={"evaluations": 1500, "distinct_nontrivial": 1000, "entities_docs_compared": 3000, "contract_evals_admonition_run": 3000, "namelist_member_docs_compared_with_default_display": 20,
-                       "marker_style_x_markset": 18, "doc_features_generated": 20, "entity_comments_looked_up_in_generated_pages": 600, "entity_kinds_looked_up_in_generated_pages": 10})
+                       "marker_style_x_markset": 18, "doc_features_generated": 20, "entity_comments_looked_up_in_generated_pages": 600, "extra_file_type_docs_compared": 200, "entity_kinds_looked_up_in_generated_pages": 10})
 
 
 if __name__ == "__main__":
